@@ -6,7 +6,9 @@ import (
 	"flag"
 	"fmt"
 	"os"
+	"os/exec"
 	"runtime/pprof"
+	"strings"
 	"syscall"
 
 	"verif/sim/scen"
@@ -141,8 +143,82 @@ func main() {
 			rep.Result = &r
 		}
 	}
+	if sc.Extra["transcript"] == 1 && sc.Extra["buf"] == 1 && rep.Result != nil && o.Status == simrt.StatusResult {
+		differential(&rep, sc, o.Tape, *sites)
+	}
 	enc := json.NewEncoder(out)
 	enc.Encode(rep)
 	pprof.StopCPUProfile()
 	os.Exit(0)
+}
+
+// differential is the C10 check: the same scenario and the same tape are executed again in a
+// child process whose packet loop hands every frame to the library in a fresh, never modified
+// buffer. The two transcripts (notifications, emitted frames, final retained state) must be equal.
+func differential(rep *Report, sc scen.Scenario, tape []uint32, sites string) {
+	child := sc
+	child.Extra = map[string]int{}
+	for k, v := range sc.Extra {
+		child.Extra[k] = v
+	}
+	child.Extra["buf"] = 0
+	rf := ReplayFile{Property: sc.Prop, Format: 1, Scenario: child, Tape: tape}
+	f, err := os.CreateTemp("", "c10-*.json")
+	if err != nil {
+		rep.Result.Violations = append(rep.Result.Violations, scen.Violation{Oracle: "infra.c10", Key: "tempfile", Detail: err.Error()})
+		return
+	}
+	defer os.Remove(f.Name())
+	json.NewEncoder(f).Encode(rf)
+	f.Close()
+	cmd := exec.Command(os.Args[0], "-replay", f.Name(), "-sites", sites)
+	cmd.Env = os.Environ()
+	outb, err := cmd.Output()
+	if err != nil {
+		rep.Result.Violations = append(rep.Result.Violations, scen.Violation{Oracle: "infra.c10", Key: "child", Detail: err.Error()})
+		return
+	}
+	var cr Report
+	if err := json.Unmarshal(outb, &cr); err != nil {
+		rep.Result.Violations = append(rep.Result.Violations, scen.Violation{Oracle: "infra.c10", Key: "child-output", Detail: err.Error()})
+		return
+	}
+	if cr.Status != rep.Status || cr.Result == nil {
+		rep.Result.Violations = append(rep.Result.Violations, scen.Violation{Oracle: "C10.diff", Key: "run-status", Detail: fmt.Sprintf("shared scribbled buffer: %s; private buffers: %s %s", rep.Status, cr.Status, cr.PanicText)})
+		return
+	}
+	a, b := rep.Result.Transcript, cr.Result.Transcript
+	if rep.Result.Extra == nil {
+		rep.Result.Extra = map[string]int64{}
+	}
+	rep.Result.Extra["transcript_lines"] = int64(len(a))
+	n := len(a)
+	if len(b) < n {
+		n = len(b)
+	}
+	for i := 0; i <= n; i++ {
+		if i == n {
+			if len(a) != len(b) {
+				rep.Result.Violations = append(rep.Result.Violations, scen.Violation{Oracle: "C10.diff", Key: "transcript-length", Detail: fmt.Sprintf("%d lines with the shared scribbled buffer, %d with private buffers", len(a), len(b))})
+			}
+			break
+		}
+		if a[i] != b[i] {
+			w := strings.Fields(a[i])
+			key := w[0]
+			if w[0] == "state" && len(w) > 1 {
+				key += ":" + w[1]
+			}
+			rep.Result.Violations = append(rep.Result.Violations, scen.Violation{Oracle: "C10.diff", Key: key, Detail: fmt.Sprintf("transcript line %d differs.\n  one shared receive buffer, scribbled over after every packet: %s\n  private immutable buffer per packet:                          %s", i, trunc(a[i], 900), trunc(b[i], 900))})
+			break
+		}
+	}
+	rep.Result.Transcript = nil
+}
+
+func trunc(s string, n int) string {
+	if len(s) > n {
+		return s[:n] + "..."
+	}
+	return s
 }
